@@ -50,6 +50,7 @@ def run(F, R):
     s2_send(F, R, M, roles, h12, h10)
     s3_receive(F, R, roles, h12, h10)
     s7_tx_length(F, R, roles, h12, h10)
+    s8_wait_loops(F, R, roles)
     s4_custody(F, R, M, roles)
     # S5: a completion is consumed for the buffer the caller posted: wherever the network drivers complete a receive or
     # transmit with a token read from the used ring, the buffer is looked up by that token (shared with C07.T5)
@@ -217,11 +218,13 @@ def s7_tx_length(F, R, roles, h12, h10):
     the transmit path is folded over lengths around both header sizes."""
     n = 0
     for b in F.bodies.values():
-        if not F.handwritten(b) or b['kind'] != 'AssocFn' or b.get('impl_adt') != RAW or b.get('pub'):
+        if not F.handwritten(b) or b['kind'] != 'AssocFn' or b.get('impl_adt') != RAW:
             continue
+        if any(bl['term']['k'] == 'call' and (bl['term'].get('fn') in roles or (F.bodies.get(bl['term'].get('fn')) or {}).get('impl_adt') == RAW) for bl in b['blocks']):
+            continue      # only the pure length tests / header writers, not the operations that call them
         fn = b
         slices = [i + 1 for i, l in enumerate(fn['locals'][1:fn['arg_count'] + 1]) if l['ty'].endswith('[u8]')]
-        if len(slices) != 1 or 'Result<()' not in b.get('sig', '').replace(' ', '').replace('core::result::', '') and '-> core::result::Result<(), ' not in b.get('sig', ''):
+        if len(slices) != 1 or '-> core::result::Result<' not in b.get('sig', ''):
             continue
         if not any(bl['term']['k'] == 'call' and bl['term'].get('fn') == 'core::mem::size_of' and (bl['term'].get('substs') or [''])[0] in (h12, h10) for bl in b['blocks']):
             continue
@@ -268,6 +271,46 @@ def s7_tx_length(F, R, roles, h12, h10):
             continue
         R.check(bad is None, 'S7', '%s:tx-length' % b['id'], fn_site(F, b['id']), 'accepted iff length >= header size (%d rows)' % rows, 'transmit length test: %s' % bad)
     R.count('tx_length_tests', n)
+
+
+def s8_wait_loops(F, R, roles):
+    """A blocking receive waits *until* a completion is there: a loop of the network driver whose condition tests the result of a
+    completion poll (peek_used / a driver method returning its token) keeps spinning on the None edge and leaves on the Some edge."""
+    n = 0
+    pollers = set(b['id'] for b in F.bodies.values() if b.get('impl_adt') in (RAW, NET) and F.handwritten(b) and b['kind'] == 'AssocFn'
+                  and any(bl['term']['k'] == 'call' and roles.get(bl['term'].get('fn')) == 'peek_used' for bl in b['blocks'])) | \
+        set(k for k, v in roles.items() if v == 'peek_used')
+    for b in F.bodies.values():
+        if b.get('impl_adt') not in (RAW, NET) or not F.handwritten(b) or b['kind'] != 'AssocFn' or not has_loop(b):
+            continue
+        sg = supergraph(F, b['id'], tag='flat', max_depth=0)
+        S = sg.sym
+        for m in sg.nodes:
+            if m.kind != 'switch':
+                continue
+            d = S.operand(m.id, m.d['discr'])
+            kind = None
+            if d[0] == 'call' and d[2].rsplit('::', 1)[-1] in ('is_none', 'is_some') and any(x[0] == 'call' and x[2] in pollers for x in deep_subterms(S, d)):
+                kind = d[2].rsplit('::', 1)[-1]
+            elif d[0] == 'discr' and any(x[0] == 'call' and x[2] in pollers for x in deep_subterms(S, d)):
+                kind = 'discr'
+            if kind is None:
+                continue
+            explicit = [x for x, _ in m.switch_edges if x is not None]
+            for val, sc in m.switch_edges:
+                loops_back = m.id in sg.reach_fwd([sc])
+                if not any(m.id in sg.reach_fwd([s2]) for _, s2 in m.switch_edges):
+                    continue       # not a loop condition
+                truth = (val is not None and val != 0) or (val is None and 0 in explicit)
+                none_edge = truth if kind == 'is_none' else (not truth)
+                n += 1
+                if loops_back != none_edge:
+                    R.violated('S8', '%s:wait-loop' % b['id'], site(sg, m), '%s %s when the completion poll yields %s: the blocking receive returns before the device has '
+                               'completed the buffer (and spins forever once it has)' % (b['name'], 'keeps waiting' if loops_back else 'stops waiting', 'None' if none_edge else 'a token'))
+                    break
+            else:
+                R.held('S8', '%s:wait-loop' % b['id'], site(sg, m), 'spins while the completion poll yields None')
+    R.count('wait_loop_edges', n)
 
 
 def s3_receive(F, R, roles, h12, h10):
